@@ -38,7 +38,7 @@ JUDGE_NAMES = {
 
 
 def n_schedules(tier):
-    return 1200 if tier == "quick" else 12000
+    return 1200 if tier == "quick" else 10000
 
 
 def gen_lines(ctx, n, tag="sched"):
@@ -155,7 +155,7 @@ def run(ctx):
     corr_dis = None
     if HAVE_COQ and model_ok:
         from props import _c09_model as M
-        ncorr = 250 if ctx.tier == "quick" else 2500
+        ncorr = 200 if ctx.tier == "quick" else 1500
         corr_dis = M.correspondence(ctx, lines[:ncorr], traces[:ncorr])
     # ---- decide (DESIGN.md §9)
     for (i, v) in failing[:3]:
